@@ -227,6 +227,9 @@ func runPath(P *Program, fn *ssa.Function, prefix []Dec, s *Solver, o *ExploreOp
 		res.ModelRes = r
 		if r == "sat" {
 			for _, in := range p.inputs {
+				if strings.HasPrefix(in.Kind, "env-") {
+					continue
+				}
 				v := model[in.T.Name]
 				res.Inputs = append(res.Inputs, ReplayInput{Label: in.Label, Kind: in.Kind, Value: v})
 			}
@@ -433,7 +436,12 @@ func nativeReplay(prop string, hfs []HarnessFile, vecPath string) (bool, string,
 	ovFile := filepath.Join(tmp, "overlay.json")
 	os.WriteFile(ovFile, ovData, 0o644)
 
-	cmd := exec.Command("go", "test", "-tags", "verif", "-vet=off", "-count=1", "-timeout", "40s", "-run", "^TestVerifReplay$", "-overlay", ovFile, "./"+rv.PkgDir)
+	tmo := "60s"
+	switch OutcomeKind(rv.Expect) {
+	case OutUnwind, OutDeadlock, OutLeak:
+		tmo = "10s"
+	}
+	cmd := exec.Command("go", "test", "-tags", "verif", "-vet=off", "-count=1", "-timeout", tmo, "-run", "^TestVerifReplay$", "-overlay", ovFile, "./"+rv.PkgDir)
 	cmd.Dir = repoDir
 	cmd.Env = append(goEnv(), "VERIF_REPLAY="+vecPath)
 	for _, in := range rv.Inputs {
